@@ -462,8 +462,16 @@ func (f *Filter) HashMatchAny(key [KeySize]byte, data [][]byte) (bool, error) {
 
 	b := bstream.NewBStreamReader(filterData)
 
+	// Every encoded value occupies at least one bit, so the filter cannot
+	// hold more values than it has bits no matter what N claims (N comes
+	// from the serialized filter and may be as large as 2^32-1).
+	sizeHint := uint64(f.N())
+	if maxValues := uint64(len(filterData)) * 8; sizeHint > maxValues {
+		sizeHint = maxValues
+	}
+
 	var (
-		values    = make(map[uint64]struct{}, f.N())
+		values    = make(map[uint64]struct{}, sizeHint)
 		lastValue uint64
 	)
 
